@@ -35,11 +35,16 @@ NestedRoot(a) == TSeq(<<Comp(Flat(1, a), "man", <<>>), Comp(I07, "man", <<>>)>>,
 \* ... as element of a list
 ListOf(a) == TSeqOf(Flat(1, a), NoSz)
 
+\* both mechanisms at once: a versioned CHOICE as mandatory root component of a SEQUENCE whose additions grow with it
+\* (an extension alternative is read inside the scope of the enclosing extensible SEQUENCE)
+Both(a) == TSeq(<<Comp(ChoiceV(a), "man", <<>>), Comp(I07, "man", <<>>)>> \o [j \in 1..a |-> AddComp(j)], 2, TRUE)
+
 \* family f, version a (0..AMax)
-Fams == <<"flat1", "flat2", "choice", "enum", "nadd", "nalt", "nroot", "list">>
+Fams == <<"flat1", "flat2", "choice", "enum", "nadd", "nalt", "nroot", "list", "both">>
 Ver(f, a) ==
   CASE f = "flat1" -> Flat(1, a) [] f = "flat2" -> Flat(2, a) [] f = "choice" -> ChoiceV(a) [] f = "enum" -> EnumV(a)
     [] f = "nadd" -> NestedAdd(a) [] f = "nalt" -> NestedAlt(a) [] f = "nroot" -> NestedRoot(a) [] f = "list" -> ListOf(a)
+    [] f = "both" -> Both(a)
 
 \* zoo: index 1 is the sentinel type, then (family, version) in order
 NV == AMax + 1
@@ -64,8 +69,14 @@ FlatVals(r, a) == FlatValsS(r, a, PayloadSizes)
 \* nested families use a reduced inner family (two payload sizes are enough to move the cursor)
 InnerVals(a) == FlatValsS(1, a, {1, 130})
 
+ChoiceVals(a) == <<[i |-> 0, v |-> 5], [i |-> 1, v |-> TRUE]>>
+                 \o [j \in 1..a |-> [i |-> j + 1, v |-> IF j % 3 = 1 THEN Payload(2) ELSE IF j % 3 = 2 THEN 6 ELSE 0]]
 ValSeq(f, a) ==
   CASE f = "flat1" -> SetToSeq(FlatVals(1, a))
+    [] f = "both" -> LET ys == SetToSeq(AddVals(a, 1, {1, 130}))
+                         cs == ChoiceVals(a)
+                     IN [q \in 1..(Len(ys) * Len(cs)) |->
+                           << <<cs[((q - 1) % Len(cs)) + 1]>>, <<5>> >> \o ys[((q - 1) \div Len(cs)) + 1]]
     [] f = "flat2" -> SetToSeq(FlatVals(2, a))
     [] f = "choice" -> <<[i |-> 0, v |-> 5], [i |-> 1, v |-> TRUE]>>
                         \o [j \in 1..a |-> [i |-> j + 1, v |-> IF j % 3 = 1 THEN Payload(2) ELSE IF j % 3 = 2 THEN 6 ELSE 0]]
